@@ -36,10 +36,23 @@ Open Scope string_scope.
 
 NPARAMS = 3
 EVENT = {"type": "E", "p0": 1, "p1": 2, "p2": 3}
+
+
+def nparams_of(sc):
+    return (sc or {}).get("nparams", NPARAMS)
+
+
+def scenario_event(sc):
+    """The triggering event: E(p0=1, ..., p<n-1>=n); wide scenarios use 10-20 parameters like a
+    fully populated UMIM event, so that specificity differences lie far from a perfect match."""
+    ev = {"type": "E"}
+    for i in range(nparams_of(sc)):
+        ev["p%d" % i] = i + 1
+    return ev
 EXTRA_KEYS = {"type", "uid", "event_created_at", "source_uid", "action_uid",
               "action_info_modality", "action_info_modality_policy"}
 PRIORITIES = [None, None, None, "1.0", "0.9", "0.5", "0.81", "0.729"]
-TRIG_PARAMS = [("a", 7), ("b", 8)]
+TRIG_PARAMS = [("a", 7), ("b", 8), ("c", 9), ("d", 10), ("e", 11), ("g", 12)]
 INJECT_POOL = [1.0, 0.9, 0.81, 0.9 * 0.9 * 0.9, 0.729, 0.5, 0.45, 0.9 * 0.5]
 
 
@@ -133,7 +146,7 @@ ACTIONS = [
 
 
 def mk_scenario(sid, specs, loops, acts, prios=None, vias=None, kinds=None, alts=None, bystanders=0, rng=None,
-                inject=None):
+                inject=None, nparams=NPARAMS):
     n = len(specs)
     flows = []
     for i in range(n):
@@ -152,15 +165,18 @@ def mk_scenario(sid, specs, loops, acts, prios=None, vias=None, kinds=None, alts
     order = [f["name"] for f in flows] + [b["name"] for b in bys]
     if rng is not None:
         rng.shuffle(order)
-    return {"id": sid, "flows": flows, "bystanders": bys, "order": order, "inject": inject}
+    sc = {"id": sid, "flows": flows, "bystanders": bys, "order": order, "inject": inject}
+    if nparams != NPARAMS:
+        sc["nparams"] = nparams
+    return sc
 
 
-def mk_chain_scenario(sid, trig_q, trig_mention, comps, loops, acts, rng=None, bystanders=0):
+def mk_chain_scenario(sid, trig_q, trig_mention, comps, loops, acts, rng=None, bystanders=0, nparams=NPARAMS):
     """Competitors of which some react to the external event directly (score chain [s]) and some
     through FlowFinished of the trigger flow t (chain [score of t's match, own fuzzy match]).
     comps: list of (ff or None, mention, priority)."""
     sc = mk_scenario(sid, [c[1] for c in comps], loops, acts, prios=[c[2] for c in comps],
-                     bystanders=bystanders)
+                     bystanders=bystanders, nparams=nparams)
     for f, c in zip(sc["flows"], comps):
         f["ff"] = c[0]
     sc["trigger"] = {"q": trig_q, "mention": trig_mention}
@@ -184,26 +200,35 @@ def gen_chain_scenarios(n_random, rng, sid0):
     add(trig_q=0, trig_mention=0, comps=[(1, 0, "0.5"), (0, 0, None)], loops=[None, None], acts=[A[0], A[1]])
     add(trig_q=1, trig_mention=3, comps=[(2, 0, "0.5"), (0, 0, None), (0, 0, "0.9")], loops=[None] * 3,
         acts=[A[0], A[1], A[2]])
+    # wide events: the differences in specificity lie 9 and more unmentioned parameters away from
+    # a perfect match (external event with 12 parameters; FlowFinished of a flow with 5 parameters)
+    add(trig_q=0, trig_mention=0, comps=[(None, 1, None), (None, 0, None)], loops=[None, None], acts=[A[0], A[1]],
+        nparams=12)
+    add(trig_q=5, trig_mention=0, comps=[(1, 0, None), (0, 0, None)], loops=[None, None], acts=[A[0], A[1]])
+    add(trig_q=6, trig_mention=1, comps=[(2, 0, None), (1, 0, None), (None, 1, None)], loops=[None] * 3,
+        acts=[A[0], A[1], A[2]], nparams=14)
     for _ in range(n_random):
-        q = rng.choice([0, 0, 1, 2])
-        mt = rng.randint(0, NPARAMS)
+        wide = rng.random() < 0.35
+        q = rng.choice([4, 5, 6]) if wide and rng.random() < 0.7 else rng.choice([0, 0, 1, 2])
+        np_ = rng.randint(10, 20) if wide else NPARAMS
+        mt = rng.randint(0, 3)
         n = rng.choice([2, 2, 3, 3, 4])
         comps = []
         for i in range(n):
             prio = rng.choice([None, None, "0.5", "0.9", "0.8", "1.0"])
             if rng.random() < 0.6:
-                comps.append((rng.randint(0, 1 + q), 0, prio))
+                comps.append((rng.randint(0, min(1 + q, 3)), 0, prio))
             else:
                 # direct competitor, mostly with the same first score as the chains through t
-                m = mt if rng.random() < 0.7 else rng.randint(0, NPARAMS)
+                m = mt if rng.random() < 0.7 else rng.randint(0, 3)
                 comps.append((None, m, prio if rng.random() < 0.3 else None))
         if all(c[0] is None for c in comps):
-            comps[0] = (rng.randint(0, 1 + q), 0, comps[0][2])
+            comps[0] = (rng.randint(0, min(1 + q, 3)), 0, comps[0][2])
         part = rng.choice(list(set_partitions(n))) if rng.random() < 0.25 else [0] * n
         pool = rng.sample(ACTIONS[:5], rng.choice([2, 3, 4]))
         acts = [pool[i % len(pool)] for i in range(n)] if rng.random() < 0.6 else [rng.choice(pool) for _ in range(n)]
         add(trig_q=q, trig_mention=mt, comps=comps, loops=loops_of(part), acts=acts, rng=rng,
-            bystanders=rng.choice([0, 0, 1]))
+            bystanders=rng.choice([0, 0, 1]), nparams=np_)
     return out
 
 
@@ -241,6 +266,8 @@ def gen_scenarios(tier, rng):
     add(specs=[2, 2], loops=[None, None], acts=[ACTIONS[0], ACTIONS[1]], alts=[ACTIONS[2], None])
     add(specs=[2, 2], loops=[None, "L1"], acts=[ACTIONS[0], ACTIONS[1]], bystanders=2)
     add(specs=[1, 1, 3], loops=[None, None, None], acts=[ACTIONS[4], ACTIONS[5], ACTIONS[6]])
+    add(specs=[1, 0], loops=[None, None], acts=[ACTIONS[0], ACTIONS[1]], nparams=11)
+    add(specs=[0, 2, 1], loops=[None, None, None], acts=[ACTIONS[0], ACTIONS[1], ACTIONS[2]], nparams=16)
 
     if tier == "thorough":
         # exhaustive: all specificity vectors in {0..3}^n, n <= 4, all loop partitions;
@@ -259,6 +286,8 @@ def gen_scenarios(tier, rng):
     for _ in range(n_random):
         n = rng.choice([2, 2, 3, 3, 3, 4, 4, 5])
         part = rng.choice(list(set_partitions(n))) if rng.random() < 0.6 else [0] * n
+        wide = rng.random() < 0.3
+        np_ = rng.randint(10, 20) if wide else NPARAMS
         specs = [rng.randint(0, NPARAMS) for _ in range(n)]
         if rng.random() < 0.4:  # force ties
             specs = [rng.choice(specs[:2]) for _ in range(n)]
@@ -273,7 +302,7 @@ def gen_scenarios(tier, rng):
             alts = [a if a is None or a != acts[i] else None for i, a in enumerate(alts)]
         inject = rng.randrange(1 << 30) if rng.random() < 0.3 else None
         add(specs=specs, loops=loops_of(part), acts=acts, prios=prios, vias=vias, kinds=kinds, alts=alts,
-            bystanders=rng.choice([0, 0, 1, 2]), rng=rng, inject=inject)
+            bystanders=rng.choice([0, 0, 1, 2]), rng=rng, inject=inject, nparams=np_)
     return out
 
 
@@ -413,7 +442,7 @@ def _worker_main(inp, outp):
             run["start_out"] = [strip(e) for e in state.outgoing_events]
             run["pre"] = snapshot(state)
             n_calls_start = len(calls)
-            state = v2util.step(state, dict(EVENT))
+            state = v2util.step(state, scenario_event(sc))
             run["out"] = [strip(e) for e in state.outgoing_events]
             run["post"] = snapshot(state)
             run["trigger_calls"] = [n_calls_start, len(calls)]
@@ -617,9 +646,9 @@ def ideal_vector(f, factor, sc=None):
         # FlowFinished carries flow_id, flow_instance_uid, source_flow_instance_uid and every flow
         # parameter twice (by name and by position)
         n_ff = 3 + 2 * trig["q"]
-        return ([factor ** (NPARAMS - trig["mention"]), p * factor ** (n_ff - f["ff"])]
+        return ([factor ** (nparams_of(sc) - trig["mention"]), p * factor ** (n_ff - f["ff"])]
                 + [Fraction(1)] * f["via"])
-    return [p * factor ** (NPARAMS - f["mention"])] + [Fraction(1)] * f["via"]
+    return [p * factor ** (nparams_of(sc) - f["mention"])] + [Fraction(1)] * f["via"]
 
 
 def padded_key(v, n, pad=Fraction(1)):
@@ -945,7 +974,7 @@ def run(tier, seed, replay=None):
         mine = [x for x in viol if x[2] == sig]
         sc, run_, sig, what = min(mine, key=lambda x: len(json.dumps(x[0])))
         out.findings.append(C.Finding(sig, what, {
-            "scenario": sc, "picks": run_["picks"], "colang": scenario_src(sc), "event": EVENT,
+            "scenario": sc, "picks": run_["picks"], "colang": scenario_src(sc), "event": scenario_event(sc),
             "outgoing_events": run_.get("out"), "status_after_event": run_.get("post"),
             "status_after_actions_finished": run_.get("final"), "violations_of_this_kind": len(mine)}))
     if impl_errors:
